@@ -78,7 +78,7 @@ def r091(prog, chk):
     sc = nd[0].value
     ndname = nd[0].targets[0].id
     ok = _is_all_glyphsets(sc.generators[0].iter) and len(sc.generators) == 2 and not sc.generators[0].ifs
-    cond = sc.generators[1].ifs[0] if sc.generators[1].ifs else None
+    cond = sc.generators[-1].ifs[0] if sc.generators[-1].ifs else None
     okc = cond is not None and isinstance(cond, ast.BoolOp) and isinstance(cond.op, ast.And) and any("len(" in T(v) for v in cond.values) and any(".components" in T(v) for v in cond.values)
     chk.ob("R09.1", f"{proc.short}|mixed glyphs collected from every glyph set", ok and okc, where(proc, nd[0]), detail=T(sc, 120),
            message=f"{proc.short}: the set of glyphs to decompose is not computed over all masters (a glyph mixed in one master only would be decomposed there alone)")
@@ -493,6 +493,9 @@ def check_master_isolation(prog, chk, rule):
 
 
 MUTANTS = [
+    M("mixed glyphs judged on the first master that has them (seeded C09g)", "ufo2ft/preProcessor.py", "TTFInterpolatablePreProcessor.process",
+      "{gname for glyphSet in self.glyphSets for gname, glyph in glyphSet.items() if len(glyph) > 0 and glyph.components}",
+      "{gname for gname, glyph in ChainMap(*self.glyphSets).items() if len(glyph) > 0 and glyph.components}", rule="R09.1"),
     M("interpolated layers built once per instantiator (seeded C09e)", "ufo2ft/instantiator.py", "Instantiator.interpolated_layers",
       "<decorate>", "functools.cached_property", rule="R09.8"),
     M("anchor propagation: one 'processed' set for all masters", "ufo2ft/filters/propagateAnchors.py", "PropagateAnchorsIFilter.filter",
